@@ -249,5 +249,338 @@ def c16_point_loads(rng, tier):
     return out
 
 
+# ---------------------------------------------------------------------------------------
+# C15
+# ---------------------------------------------------------------------------------------
+@oracle("C15", "ks_bounds")
+def c15_ks(rng, tier):
+    from openaerostruct.structures.failure_ks import FailureKS
+    from openaerostruct.structures.failure_exact import FailureExact
+    nx, ny = _pick_size(rng, tier)
+    fem = "tube" if rng.integers(2) else "wingbox"
+    s = gen.base_surface(rng, nx, ny, bool(rng.integers(2)), fem=fem)
+    nc = 2 if fem == "tube" else 4
+    rho = float(rng.choice([1.0, 10.0, 100.0, 1000.0]))
+    mag = 10 ** rng.uniform(0, 12)
+    vm = rng.uniform(0, 1, size=(ny - 1, nc)) * mag
+    if rng.uniform() < 0.2:
+        vm[:] = vm.flat[0]      # all equal: KS = max + ln N / rho exactly
+    p = comp_problem(FailureKS(surface=s, rho=rho), dict(vonmises=vm))
+    ks = float(p.get_val("failure")[0])
+    fmax = float(np.max(vm / s["yield"] - 1))
+    N = vm.size
+    out = []
+    tol = 1e-12 * max(1.0, abs(fmax))
+    if not np.isfinite(ks):
+        out.append(_fail("KS failure is not finite", ks, fmax, N=N, rho=rho, magnitude=mag))
+    elif ks < fmax - tol or ks > fmax + np.log(N) / rho + tol:
+        out.append(_fail("KS outside [max, max + ln N / rho]", ks, [fmax, fmax + np.log(N) / rho], N=N, rho=rho, magnitude=mag))
+    p = comp_problem(FailureExact(surface=s), dict(vonmises=vm))
+    fe = np.array(p.get_val("failure"))
+    if relerr(fe, vm / s["yield"] - 1) > 1e-14:
+        out.append(_fail("exact failure != stress/allowable - 1", fe, vm / s["yield"] - 1, N=N))
+    return out
+
+
+def _vm_tube(s, nodes, radius, disp):
+    from openaerostruct.structures.vonmises_tube import VonMisesTube
+    p = comp_problem(VonMisesTube(surface=s), dict(nodes=nodes, radius=radius, disp=disp))
+    return np.array(p.get_val("vonmises"))
+
+
+def _wb_inputs(rng, ne):
+    return dict(Qz=rng.uniform(1e-3, 1e-2, size=ne), J=rng.uniform(1e-3, 1e-2, size=ne), A_enc=rng.uniform(0.1, 0.6, size=ne),
+                spar_thickness=rng.uniform(2e-3, 2e-2, size=ne), htop=rng.uniform(0.05, 0.3, size=ne),
+                hbottom=rng.uniform(0.05, 0.3, size=ne), hfront=rng.uniform(0.2, 0.8, size=ne), hrear=rng.uniform(0.2, 0.8, size=ne))
+
+
+def _vm_wingbox(s, nodes, wb, disp):
+    from openaerostruct.structures.vonmises_wingbox import VonMisesWingbox
+    p = comp_problem(VonMisesWingbox(surface=s), dict(nodes=nodes, disp=disp, **wb))
+    return np.array(p.get_val("vonmises"))
+
+
+@oracle("C15", "von_mises_invariants")
+def c15_vm(rng, tier):
+    nx, ny = _pick_size(rng, tier)
+    sym = bool(rng.integers(2))
+    s = gen.base_surface(rng, nx, ny, sym)
+    s["strength_factor_for_upper_skin"] = 1.0
+    nodes = _nodes_of(s)
+    radius = rng.uniform(0.05, 0.4, size=ny - 1)
+    wb = _wb_inputs(rng, ny - 1)
+    disp = rng.normal(size=(ny, 6)) * 0.05; disp[:, 3:] *= 0.2
+    out = []
+    E = s["E"]
+    scale = E * 0.05 / np.min(np.linalg.norm(nodes[1:] - nodes[:-1], axis=1))
+    for name, f in (("tube", lambda d: _vm_tube(s, nodes, radius, d)), ("wingbox", lambda d: _vm_wingbox(s, nodes, wb, d))):
+        v = f(disp)
+        if np.any(v < 0) or not np.all(np.isfinite(v)):
+            out.append(_fail(name + ": von Mises negative or not finite", v, 0, ny=ny))
+        k = float(rng.uniform(0.2, 5.0))
+        vk = f(k * disp)
+        if relerr(vk, k * v) > 1e-9:
+            out.append(_fail(name + ": vm(k disp) != k vm(disp)", vk, k * v, ny=ny, k=k))
+        # rigid-body motion (linearised): u = t + theta x (P - c), r = theta
+        theta = rng.normal(size=3) * 1e-2; t = rng.normal(size=3) * 0.1; c = rng.normal(size=3)
+        rigid = np.zeros((ny, 6)); rigid[:, :3] = t + np.cross(theta, nodes - c); rigid[:, 3:] = theta
+        v0 = f(rigid)
+        # tolerance: round-off of stresses of the size produced by the individual terms
+        if np.max(np.abs(v0)) > 1e-9 * scale * 10:
+            out.append(_fail(name + ": rigid-body motion gives non-zero stress", np.max(np.abs(v0)), 0.0, ny=ny))
+    # closed forms on a straight beam along y
+    L = float(rng.uniform(0.5, 2.0)); r = float(rng.uniform(0.05, 0.3))
+    nodes2 = np.zeros((2, 3)); nodes2[1, 1] = L
+    s2 = dict(s); s2["mesh"] = np.zeros((2, 2, 3))
+    d = np.zeros((2, 6)); delta = 1e-3
+    d[1, 1] = delta      # axial stretch along the element
+    v = _vm_tube(s2, nodes2, np.array([r]), d)
+    if relerr(v, np.full((1, 2), E * delta / L)) > 1e-12:
+        out.append(_fail("tube axial stress != E du / L", v, E * delta / L))
+    d = np.zeros((2, 6)); d[1, 4] = 2e-3     # twist about the element axis (global y)
+    v = _vm_tube(s2, nodes2, np.array([r]), d)
+    req = np.sqrt(3.0) * s["G"] * r * 2e-3 / L
+    if relerr(v, np.full((1, 2), req)) > 1e-12:
+        out.append(_fail("tube torsion stress != sqrt(3) G r dtheta / L", v, req))
+    d = np.zeros((2, 6)); d[1, 3] = 3e-3     # bending rotation difference about global x
+    v = _vm_tube(s2, nodes2, np.array([r]), d)
+    req = E * r * 3e-3 / L
+    if relerr(v, np.full((1, 2), req)) > 1e-12:
+        out.append(_fail("tube bending stress != E r dkappa", v, req))
+    return out
+
+
+# ---------------------------------------------------------------------------------------
+# C17
+# ---------------------------------------------------------------------------------------
+@oracle("C17", "functional_identities")
+def c17_functionals(rng, tier):
+    from openaerostruct.functionals.total_lift_drag import TotalLiftDrag
+    from openaerostruct.functionals.equilibrium import Equilibrium
+    from openaerostruct.functionals.breguet_range import BreguetRange
+    from openaerostruct.functionals.center_of_gravity import CenterOfGravity
+    from openaerostruct.functionals.sum_areas import SumAreas
+    ns = int(rng.integers(1, 4))
+    ss = [gen.base_surface(rng, 2, 3, True, name="s%d" % k) for k in range(ns)]
+    CL = rng.uniform(-0.3, 1.0, size=ns); CD = rng.uniform(0.005, 0.06, size=ns); S = rng.uniform(5, 300, size=ns)
+    rho = float(rng.uniform(0.2, 1.3)); v = float(rng.uniform(20, 260))
+    user_sref = bool(rng.integers(2))
+    out = []
+    p = comp_problem(SumAreas(surfaces=ss), {"s%d_S_ref" % k: S[k] for k in range(ns)})
+    Stot = float(p.get_val("S_ref_total")[0])
+    if abs(Stot - S.sum()) > 1e-12 * S.sum():
+        out.append(_fail("S_ref_total != sum of areas", Stot, S.sum(), ns=ns))
+    if user_sref:
+        Stot = float(rng.uniform(50, 500))
+    inp = {"S_ref_total": Stot, "rho": rho, "v": v}
+    for k in range(ns):
+        inp.update({"s%d_CL" % k: CL[k], "s%d_CD" % k: CD[k], "s%d_S_ref" % k: S[k]})
+    p = comp_problem(TotalLiftDrag(surfaces=ss), inp)
+    q = 0.5 * rho * v * v
+    got = [float(p.get_val(n)[0]) for n in ("CL", "CD", "L", "D")]
+    req = [np.sum(CL * S) / Stot, np.sum(CD * S) / Stot, q * np.sum(CL * S), q * np.sum(CD * S)]
+    if relerr(got, req) > 1e-12 or abs(got[2] - q * Stot * got[0]) > 1e-10 * abs(got[2]):
+        out.append(_fail("aircraft CL/CD/L/D are not the area-weighted sums / q S C", got, req, ns=ns))
+    sm = rng.uniform(100, 2e4, size=ns); fb = float(rng.uniform(1e3, 1e5)); W0 = float(rng.uniform(1e3, 2e5)); lf = float(rng.uniform(0.5, 2.5))
+    inp = {"fuelburn": fb, "W0": W0, "load_factor": lf, "CL": got[0], "S_ref_total": Stot, "v": v, "rho": rho}
+    inp.update({"s%d_structural_mass" % k: sm[k] for k in range(ns)})
+    p = comp_problem(Equilibrium(surfaces=ss), inp)
+    W = (sm.sum() + fb + W0) * G * lf
+    got2 = [float(p.get_val("total_weight")[0]), float(p.get_val("L_equals_W")[0])]
+    req2 = [W, 1 - q * Stot * got[0] / W]
+    if relerr(got2[:1], req2[:1]) > 1e-12 or abs(got2[1] - req2[1]) > 1e-11:
+        out.append(_fail("L_equals_W != 1 - L/W or wrong total weight", got2, req2, ns=ns))
+    CT = float(rng.uniform(1e-5, 3e-4)); a = float(rng.uniform(290, 345)); R = float(rng.uniform(1e5, 1.5e7)); M = float(rng.uniform(0.2, 0.9))
+    cl = float(rng.uniform(0.2, 0.9)); cd = float(rng.uniform(0.01, 0.06))
+    inp = {"CT": CT, "CL": cl, "CD": cd, "speed_of_sound": a, "R": R, "Mach_number": M, "W0": W0}
+    inp.update({"s%d_structural_mass" % k: sm[k] for k in range(ns)})
+    p = comp_problem(BreguetRange(surfaces=ss), inp)
+    reqf = (W0 + sm.sum()) * (np.exp(R * CT / (a * M) * cd / cl) - 1)
+    gotf = float(p.get_val("fuelburn")[0])
+    if abs(gotf - reqf) > 1e-10 * abs(reqf):
+        out.append(_fail("fuel burn does not follow the Breguet range equation", gotf, reqf, ns=ns))
+    cgs = rng.normal(size=(ns, 3)) * 3; ecg = rng.normal(size=3) * 3
+    inp = {"total_weight": W, "fuelburn": fb, "W0": W0, "load_factor": lf, "empty_cg": ecg}
+    for k in range(ns):
+        inp.update({"s%d_structural_mass" % k: sm[k], "s%d_cg_location" % k: cgs[k]})
+    p = comp_problem(CenterOfGravity(surfaces=ss), inp)
+    reqc = (W0 * ecg + (cgs * sm[:, None]).sum(axis=0)) / (W0 + sm.sum())
+    gotc = np.array(p.get_val("cg"))
+    if np.max(np.abs(gotc - reqc)) > 1e-10 * max(1.0, np.abs(reqc).max()):
+        out.append(_fail("aircraft cg is not the mass-weighted mean", gotc, reqc, ns=ns))
+    return out
+
+
+@oracle("C17", "moment_coefficient")
+def c17_cm(rng, tier):
+    from openaerostruct.functionals.moment_coefficient import MomentCoefficient
+    nx, ny = _pick_size(rng, tier)
+    ns = int(rng.integers(1, 4))
+    ss = [gen.base_surface(rng, nx + (k % 2), ny + k // 2, bool(rng.integers(2)), name="s%d" % k) for k in range(ns)]
+    inp = {}
+    cg = rng.normal(size=3) * 2; v = float(rng.uniform(20, 260)); rho = float(rng.uniform(0.2, 1.3)); Stot = float(rng.uniform(50, 500))
+    M = np.zeros(3); mac0 = None
+    for k, s in enumerate(ss):
+        m = s["mesh"]; snx, sny = m.shape[:2]
+        b = 0.75 * m[:-1] + 0.25 * m[1:]
+        w = rng.uniform(0.3, 2.0, size=sny - 1); c = rng.uniform(0.5, 3.0, size=sny); S = float(rng.uniform(5, 300))
+        F = rng.normal(size=(snx - 1, sny - 1, 3)) * 1e3
+        inp.update({"s%d_b_pts" % k: b, "s%d_widths" % k: w, "s%d_chords" % k: c, "s%d_S_ref" % k: S, "s%d_sec_forces" % k: F})
+        pts = 0.5 * (b[:, 1:] + b[:, :-1])
+        mom = np.cross(pts - cg, F).sum(axis=(0, 1))
+        if s["symmetry"]:
+            mom = np.array([0.0, 2 * mom[1], 0.0])
+        M += mom
+        if k == 0:
+            pc = 0.5 * (c[1:] + c[:-1])
+            mac0 = np.sum(pc ** 2 * w) / S * (2 if s["symmetry"] else 1)
+    inp.update(cg=cg, v=v, rho=rho, S_ref_total=Stot)
+    p = comp_problem(MomentCoefficient(surfaces=ss), inp)
+    out = []
+    gotM = np.array(p.get_val("M")); gotCM = np.array(p.get_val("CM"))
+    if np.max(np.abs(gotM - M)) > 1e-10 * max(np.abs(M).max(), 1.0):
+        out.append(_fail("M is not the summed moment about the cg", gotM, M, ns=ns))
+    reqCM = M / (0.5 * rho * v * v * Stot * mac0)
+    if np.max(np.abs(gotCM - reqCM)) > 1e-10 * max(np.abs(reqCM).max(), 1e-12):
+        out.append(_fail("CM != M / (q S_ref MAC of first surface)", gotCM, reqCM, ns=ns))
+    return out
+
+
+@oracle("C17", "atmosphere")
+def c17_atmos(rng, tier):
+    from openaerostruct.common.atmos_group import AtmosGroup
+    import openmdao.api as om
+    alt_m = float(rng.uniform(-900, 80000 * 0.3048 * 0.98))     # metres
+    M = float(rng.uniform(0.1, 0.9))
+    prob = om.Problem(reports=False)
+    prob.model.add_subsystem("atmos", AtmosGroup(), promotes=["*"])
+    with quiet():
+        prob.setup()
+        prob.set_val("altitude", alt_m, units="m")
+        prob.set_val("Mach_number", M)
+        prob.run_model()
+    T = float(prob.get_val("T", units="K")[0]); P = float(prob.get_val("P", units="Pa")[0])
+    rho = float(prob.get_val("rho", units="kg/m**3")[0]); a = float(prob.get_val("speed_of_sound", units="m/s")[0])
+    v = float(prob.get_val("v", units="m/s")[0]); mu = float(prob.get_val("mu", units="Pa*s")[0])
+    re = float(prob.get_val("re", units="1/m")[0])
+    out = []
+    case = dict(altitude_m=alt_m, Mach=M)
+    if abs(v - M * a) > 1e-10 * v:
+        out.append(_fail("v != M a", v, M * a, **case))
+    # evaluated in the components' native units: OpenMDAO's unit-conversion factors are only ~1e-8 accurate
+    re_n = float(prob.get_val("re", units="1/ft")[0]); rho_n = float(prob.get_val("rho", units="slug/ft**3")[0])
+    v_n = float(prob.get_val("v", units="ft/s")[0]); mu_n = float(prob.get_val("mu", units="lbf*s/ft**2")[0])
+    if abs(re_n - rho_n * v_n / mu_n) > 1e-12 * re_n:
+        out.append(_fail("re != rho v / mu", re_n, rho_n * v_n / mu_n, **case))
+    # table resolution: ideal gas and speed of sound to the accuracy of independently interpolated columns
+    if abs(P / (rho * 287.053 * T) - 1) > 5e-3:
+        out.append(_fail("P != rho R T (ideal gas) beyond table resolution", P, rho * 287.053 * T, **case))
+    if abs(a / np.sqrt(1.4 * 287.053 * T) - 1) > 5e-3:
+        out.append(_fail("a != sqrt(gamma R T) beyond table resolution", a, np.sqrt(1.4 * 287.053 * T), **case))
+    # continuity in altitude
+    h = 1e-3
+    prob.set_val("altitude", alt_m + h, units="m")
+    with quiet():
+        prob.run_model()
+    rho2 = float(prob.get_val("rho", units="kg/m**3")[0])
+    if abs(rho2 - rho) > 1e-3 * rho:
+        out.append(_fail("density jumps across a 1 mm altitude step", rho2, rho, **case))
+    return out
+
+
+# ---------------------------------------------------------------------------------------
+# C18
+# ---------------------------------------------------------------------------------------
+def _viscous(s, ny, re, M, S, widths, lsp, lengths, toc):
+    from openaerostruct.aerodynamics.viscous_drag import ViscousDrag
+    p = comp_problem(ViscousDrag(surface=s), dict(re=re, Mach_number=M, S_ref=S, widths=widths, lengths_spanwise=lsp,
+                                                  lengths=lengths, t_over_c=toc))
+    return float(p.get_val("CDv")[0])
+
+
+def _wave(s, M, CL, widths, lsp, chords, toc):
+    from openaerostruct.aerodynamics.wave_drag import WaveDrag
+    p = comp_problem(WaveDrag(surface=s), dict(Mach_number=M, CL=CL, widths=widths, lengths_spanwise=lsp, chords=chords, t_over_c=toc))
+    return float(p.get_val("CDw")[0])
+
+
+@oracle("C18", "drag_estimates")
+def c18_drag(rng, tier):
+    nx, ny = _pick_size(rng, tier)
+    sym = bool(rng.integers(2))
+    s = gen.base_surface(rng, nx, ny, sym)
+    s["k_lam"] = float(rng.choice([0.0, 0.05, 0.3, 0.7, 1.0])); s["c_max_t"] = float(rng.uniform(0.25, 0.45))
+    widths = rng.uniform(0.3, 2.0, size=ny - 1); lsp = widths / np.cos(np.radians(rng.uniform(0, 55, size=ny - 1)))
+    lengths = rng.uniform(0.5, 3.0, size=ny); toc = rng.uniform(0.03, 0.3, size=ny - 1)
+    chord_min = 0.5 * np.min(lengths[1:] + lengths[:-1])
+    re_min = 1.1e3 / chord_min / (s["k_lam"] if s["k_lam"] > 0 else 1.0)
+    re = float(max(10 ** rng.uniform(5, 7.5), re_min)); M = float(rng.uniform(0.05, 0.94)); S = float(rng.uniform(5, 400))
+    out = []
+    case = dict(ny=ny, symmetry=sym, k_lam=s["k_lam"], re=re, M=M)
+    s_off = dict(s); s_off["with_viscous"] = False; s_off["with_wave"] = False
+    if _viscous(s_off, ny, re, M, S, widths, lsp, lengths, toc) != 0.0:
+        out.append(_fail("CDv not exactly zero when viscous drag is off", "nonzero", 0.0, **case))
+    if _wave(s_off, M, 0.5, widths, lsp, lengths, toc) != 0.0:
+        out.append(_fail("CDw not exactly zero when wave drag is off", "nonzero", 0.0, **case))
+    s["with_viscous"] = True
+    c0 = _viscous(s, ny, re, M, S, widths, lsp, lengths, toc)
+    if not (c0 > 0):
+        out.append(_fail("viscous drag not positive", c0, ">0", **case))
+    c1 = _viscous(s, ny, re * 1.5, M, S, widths, lsp, lengths, toc)
+    if not (c1 < c0):
+        out.append(_fail("viscous drag does not decrease with Reynolds number", [c0, c1], "decreasing", **case))
+    c2 = _viscous(s, ny, re, M, S, widths, lsp, lengths, np.minimum(toc * 1.2, 0.3 + 0 * toc) + 1e-3)
+    if not (c2 > c0):
+        out.append(_fail("viscous drag does not increase with thickness ratio", [c0, c2], "increasing", **case))
+    # wave drag shape
+    s["with_wave"] = True
+    CL = float(rng.uniform(0, 0.8))
+    area = 0.5 * (lengths[:-1] + lengths[1:]) * widths
+    ac = np.sum(widths / lsp * area) / area.sum(); at = np.sum(toc * area) / area.sum()
+    mcrit = 0.95 / ac - at / ac ** 2 - CL / (10 * ac ** 3) - (0.1 / 80.0) ** (1.0 / 3.0)
+    fac = 2 if sym else 1
+    for dM in (-0.2, -0.01, 0.005, 0.05, 0.15):
+        w = _wave(s, mcrit + dM, CL, widths, lsp, lengths, toc)
+        req = fac * 20 * max(dM, 0.0) ** 4
+        if abs(w - req) > 1e-9 * max(req, 1e-12) + (0 if dM > 0 else 0):
+            out.append(_fail("wave drag != 20 (M - Mcrit)^4 beyond / 0 below the crest-critical Mach number", w, req, dM=dM, **case))
+    w1 = _wave(s, mcrit + 0.05, CL, widths, lsp, lengths, toc); w2 = _wave(s, mcrit + 0.05, CL + 0.1, widths, lsp, lengths, toc)
+    if not (w2 > w1):
+        out.append(_fail("wave drag does not grow with lift", [w1, w2], "increasing", **case))
+    return out
+
+
+@oracle("C18", "mesh_independence")
+def c18_mesh_independence(rng, tier):
+    """constant-chord untwisted wing: CDv, CDw from the real VLMGeometry + drag components at several (nx, ny)"""
+    from openaerostruct.aerodynamics.geometry import VLMGeometry
+    from openaerostruct.geometry.utils import generate_mesh
+    sym = bool(rng.integers(2))
+    span = float(rng.uniform(4, 14)); chord = float(rng.uniform(0.6, 2.5))
+    k_lam = float(rng.choice([0.0, 0.05, 0.5, 1.0])); toc0 = float(rng.uniform(0.05, 0.2))
+    re = float(10 ** rng.uniform(5.5, 7)); M = float(rng.uniform(0.75, 0.93)); CL = float(rng.uniform(0.3, 0.8))
+    res = []
+    sizes = [(2, 3), (3, 5), (2, 7), (4, 9), (3, 11)] if tier == "quick" else [(2, 3), (3, 5), (2, 7), (4, 9), (3, 11), (5, 15), (6, 21)]
+    for (nx, num_y) in sizes:
+        mesh = generate_mesh(dict(num_x=nx, num_y=num_y, wing_type="rect", symmetry=sym, span=span, root_chord=chord,
+                                  span_cos_spacing=float(rng.uniform(0, 1)), chord_cos_spacing=float(rng.uniform(0, 1))))
+        ny = mesh.shape[1]
+        s = gen.base_surface(rng, nx, ny, sym); s["mesh"] = mesh; s["k_lam"] = k_lam; s["with_wave"] = True; s["with_viscous"] = True
+        s["S_ref_type"] = "wetted"
+        p = comp_problem(VLMGeometry(surface=s), dict(def_mesh=mesh))
+        g = {k: np.array(p.get_val(k)) for k in ("widths", "lengths_spanwise", "lengths", "chords", "S_ref")}
+        toc = np.full(ny - 1, toc0)
+        cdv = _viscous(s, ny, re, M, g["S_ref"], g["widths"], g["lengths_spanwise"], g["lengths"], toc)
+        cdw = _wave(s, M, CL, g["widths"], g["lengths_spanwise"], g["chords"], toc)
+        res.append((nx, num_y, cdv, cdw))
+    out = []
+    cdv = np.array([r[2] for r in res]); cdw = np.array([r[3] for r in res])
+    if np.ptp(cdv) > 1e-9 * cdv.max():
+        out.append(_fail("CDv of a constant-chord wing depends on the panel counts", cdv, cdv[0], sizes=sizes, symmetry=sym, k_lam=k_lam))
+    if np.ptp(cdw) > 1e-9 * max(cdw.max(), 1e-12):
+        out.append(_fail("CDw of a constant-chord wing depends on the panel counts", cdw, cdw[0], sizes=sizes, symmetry=sym))
+    return out
+
+
 class Discard(Exception):
     """raised by an oracle when the generated case is outside the property's quantifier"""
